@@ -80,7 +80,7 @@ func init() { harness.Register(Prop{}) }
 func (Prop) ID() string { return "C13" }
 
 var allKinds = []string{"Define", "DefineDot", "Set", "Get", "Delete", "DeleteGlobal", "DefineType", "Type",
-	"ValueSymbols", "TypeSymbols", "Copy", "DeepCopy", "String", "Addr", "NewModule", "EnvFromPath", "DefineGlobal", "EnvFromPath2", "CopyMut", "DeepCopyMut"}
+	"ValueSymbols", "TypeSymbols", "Copy", "DeepCopy", "String", "Addr", "NewModule", "EnvFromPath", "DefineGlobal", "EnvFromPath2", "CopyMut", "DeepCopyMut", "DeleteK"}
 
 func (Prop) Gen(seed int64, tier string) *harness.Case {
 	r := harness.Rand(seed)
@@ -88,6 +88,9 @@ func (Prop) Gen(seed int64, tier string) *harness.Case {
 	w.KMod = w.Child && r.Intn(2) == 0
 	w.UY = r.Intn(2) == 0
 	nClients := 2 + r.Intn(2)
+	if w.KMod && r.Intn(3) == 0 {
+		nClients = 4 // lock-order cycles between a scope and its module need two readers and two queued writers
+	}
 	maxOps := 2 + r.Intn(4)
 	readMostly := r.Intn(8) == 0
 	if tier == "thorough" && r.Intn(2) == 0 {
@@ -201,7 +204,25 @@ func (Prop) Gen(seed int64, tier string) *harness.Case {
 		}
 		w.UY = true
 	}
-	if !readMostly && r.Intn(10) == 0 {
+	if !readMostly && r.Intn(12) == 0 {
+		// every way of holding two scope locks at once, against each other: a listing of S (which may look into the
+		// module bound in it), an address taken through the module (which walks up into S), and a writer queued on
+		// each of the two scopes
+		w.Child, w.KMod = true, true
+		w.Clients, total = nil, 0
+		name := valNames[0]
+		w.SInit[name] = 10
+		rep := 1 + r.Intn(2)
+		var c0, c1, c2, c3 []Op
+		for i := 0; i < rep; i++ {
+			c0 = append(c0, Op{Kind: []string{"String", "Copy", "DeepCopy", "ValueSymbols"}[r.Intn(4)], Val: 1000 + i})
+			c1 = append(c1, Op{Kind: []string{"Addr", "Get", "Set"}[r.Intn(3)], Name: name, Via: "K", Val: 2000 + i})
+			c2 = append(c2, Op{Kind: "Define", Name: name, Val: 3000 + i})
+			c3 = append(c3, Op{Kind: "DeleteK", Val: 4000 + i})
+		}
+		w.Clients = [][]Op{c0, c1, c2, c3}
+		total = 4 * rep
+	} else if !readMostly && r.Intn(10) == 0 {
 		// a scope that was large and is being emptied while another client keeps setting and reading one of the
 		// survivors: what table maintenance triggered by deletions (shrinking, rebuilding) has to survive
 		w.Clients, total = nil, 0
@@ -362,6 +383,9 @@ func apply(st state, op Op, rooted bool) (state, Out) {
 	case "EnvFromPath2":
 		// ["k", "m"]: K (when it is a module) never holds anything itself
 		return st, Out{Err: "undef"}
+	case "DeleteK":
+		// a write on K's own (always empty) table: takes K's write lock, changes nothing
+		return st, Out{}
 	}
 	return st, Out{Err: "unknown-op"}
 }
@@ -538,6 +562,10 @@ func (r *runner) exec(rc *rec) {
 		rc.out.Err = errClass(err)
 		if err == nil {
 			rc.raw = m
+		}
+	case "DeleteK":
+		if r.K != nil {
+			r.K.Delete("zq")
 		}
 	case "EnvFromPath2":
 		m, err := e.GetEnvFromPath([]string{op.Name, "m"})
